@@ -46,12 +46,14 @@ CRANGE = 1000
 
 def bounds(tier):
     if tier == 'quick':
-        return {'omega': ['2 variables, 3 constraints, coefficients in [-2,2]: all 15625 row triples', '3 variables, 3 constraints, coefficients [-2,2]: 600 seeded row triples'],
+        return {'omega': ['2 variables, 3 constraints, coefficients in [-2,2]: all 15625 row triples', '3 variables, 3 constraints, coefficients [-2,2]: 600 seeded row triples',
+                          '2 variables, coefficients in {-3,-2,2,3} (no units): all 256 row pairs + 480 seeded triples'],
                 'simplex': ['2 variables, <=3 constraints (>= or <=), coefficients [-2,2], all row pairs + 1500 seeded triples'],
                 'proofs': 'OmegaHOL / simplex_macro / integer_simplex on 250 seeded concrete systems (2-3 variables, 2-4 constraints, constants [-3,3])',
                 'constants': 'symbolic in [-%d,%d]' % (CRANGE, CRANGE)}
     return {'omega': ['2 variables, 3 constraints, coefficients [-3,3]', '3 variables, 3 constraints, coefficients [-1,1] exhaustive (19683) + [-2,2] 20000 seeded',
-                      '2 variables, 4 constraints, coefficients [-2,2]: 40000 seeded', '4 variables, 4 constraints, coefficients [-2,2]: 4000 seeded'],
+                      '2 variables, 4 constraints, coefficients [-2,2]: 40000 seeded', '4 variables, 4 constraints, coefficients [-2,2]: 4000 seeded',
+                      '2 variables, coefficients {-3,-2,2,3}: all pairs and triples; 3 variables {-3,-2,0,2,3}: 4000 seeded triples'],
             'simplex': ['2 variables <=3 constraints exhaustive [-2,2]', '3 variables, 3-4 constraints, 20000 seeded'],
             'proofs': '4000 seeded concrete systems', 'constants': 'symbolic in [-%d,%d]' % (CRANGE, CRANGE)}
 
@@ -88,6 +90,12 @@ def units(tier, seed):
             us.append(('omega', 2, (-2, 2), 3, 'prefix', first))
         for i in range(12):
             us.append(('omega', 3, (-2, 2), 3, 'sample', (seed, i, 50)))
+        # no unit coefficients (coprime non-unit pairs): exact elimination impossible, dark/real shadows differ
+        NU = ('set', (-3, -2, 2, 3))
+        for first in range(16):
+            us.append(('omega', 2, NU, 2, 'prefix', first))
+        for i in range(8):
+            us.append(('omega', 2, NU, 3, 'sample', (seed, i, 60)))
         for first in range(len(r2)):
             us.append(('simplex', 2, (-2, 2), 2, 'prefix', first))
         for i in range(8):
@@ -107,6 +115,12 @@ def units(tier, seed):
             us.append(('omega', 2, (-2, 2), 4, 'sample', (seed, i, 400)))
         for i in range(40):
             us.append(('omega', 4, (-2, 2), 4, 'sample', (seed, i, 100)))
+        NU = ('set', (-3, -2, 2, 3))
+        for first in range(16):
+            us.append(('omega', 2, NU, 2, 'prefix', first))
+            us.append(('omega', 2, NU, 3, 'prefix', first))
+        for i in range(40):
+            us.append(('omega', 3, ('set', (-3, -2, 0, 2, 3)), 3, 'sample', (seed, i, 100)))
         r2 = rows(2, -2, 2)
         for first in range(len(r2)):
             us.append(('simplex', 2, (-2, 2), 2, 'prefix', first))
@@ -121,8 +135,11 @@ def units(tier, seed):
 
 
 def systems_of(u):
-    kind, nv, (lo, hi), m, how, arg = u
-    rs = rows(nv, lo, hi)
+    kind, nv, rng, m, how, arg = u
+    if rng[0] == 'set':
+        rs = list(itertools.product(rng[1], repeat=nv))       # coefficients drawn from an explicit value set
+    else:
+        rs = rows(nv, rng[0], rng[1])
     if how == 'prefix':
         for rest in itertools.product(rs, repeat=m - 1):
             yield (rs[arg],) + rest
